@@ -321,7 +321,7 @@ Proof.
     destruct (k =? KIND_CHUNK) eqn:K; [|discriminate]. apply N.eqb_eq in K. subst k.
     unfold parse_chunk. cbn [r_body]. destruct b as [c'| |]; try discriminate.
     destruct (H c' =? a); [|discriminate]. intros X. inversion X. exists k0. reflexivity.
-  - destruct e as [| | | | |m]; try discriminate.
+  - destruct e as [r0| |r0| | |m]; try discriminate.
     destruct (handle_split a m) as [r|] eqn:Hs; [|discriminate].
     unfold handle_split in Hs. destruct (1 <? N.of_nat (List.length m)); [|discriminate].
     destruct (split_loop None None m); [|discriminate]. inversion Hs; subst r. cbn [r_hdr].
@@ -341,7 +341,7 @@ Proof.
     cbn [pads_of wf_pads]. rewrite P. split; [left; reflexivity|]. split; [exact A|].
     intros q. destruct (r_hdr r) as [k|]; [|intros []].
     destruct (k =? KIND_SCRATCHPAD); [|intros []]. intros [->|[]] _. lia.
-  - destruct e as [| | | | |m]; try discriminate.
+  - destruct e as [r0| |r0| | |m]; try discriminate.
     destruct (handle_split key m) as [r|] eqn:Hs.
     + unfold handle_split in Hs. destruct (1 <? N.of_nat (List.length m)); [|discriminate].
       destruct (split_loop None None m) as [b|] eqn:L; [|discriminate]. inversion Hs; subst r.
@@ -389,6 +389,17 @@ Lemma fetch_fails_lemma key rp sk :
 Proof.
   intros N. unfold fetch_and_decrypt_vault. destruct (vault_fails_lemma key rp sk N) as [e ->]. eauto.
 Qed.
+
+(* a record carried inside an error (NotEnoughCopies, RecordDoesNotMatch) is never handed to the
+   caller, whatever it contains: the read fails with that error *)
+Lemma error_carried_record_ignored key r pk :
+  get_vault key (RErr (GNotEnoughCopies r)) pk = inr (VNet (GNotEnoughCopies r)) /\
+  get_vault key (RErr (GDoesNotMatch r)) pk = inr (VNet (GDoesNotMatch r)) /\
+  fetch_and_decrypt_vault key (RErr (GNotEnoughCopies r)) pk = VErr (VNet (GNotEnoughCopies r)) /\
+  fetch_and_decrypt_vault key (RErr (GDoesNotMatch r)) pk = VErr (VNet (GDoesNotMatch r)) /\
+  forall H a, chunk_get H (RErr (GNotEnoughCopies r)) a = inr (CNet (GNotEnoughCopies r)) /\
+              chunk_get H (RErr (GDoesNotMatch r)) a = inr (CNet (GDoesNotMatch r)).
+Proof. repeat split; reflexivity. Qed.
 
 (* honest flows *)
 
@@ -453,13 +464,15 @@ Example ex_chunk_get_ok : chunk_get (fun c => N.of_nat (List.length c)) (ROk (ch
 Proof. vm_compute. reflexivity. Qed.
 
 Example ex_chunk_get_substituted :
-  chunk_get (fun c => N.of_nat (List.length c)) (ROk (chunk_record 2 [7;7;7])) 2 = inr (CNet GDoesNotMatch).
+  chunk_get (fun c => N.of_nat (List.length c)) (ROk (chunk_record 2 [7;7;7])) 2
+  = inr (CNet (GDoesNotMatch (chunk_record 2 [7;7;7]))).
 Proof. vm_compute. reflexivity. Qed.
 
 (* the whole record replaced by a well-formed record of another chunk (keyed with that chunk's own
    address, 3): still rejected, because the comparison is with the requested address *)
 Example ex_chunk_get_whole_record_substituted :
-  chunk_get (fun c => N.of_nat (List.length c)) (ROk (chunk_record 3 [7;7;7])) 2 = inr (CNet GDoesNotMatch).
+  chunk_get (fun c => N.of_nat (List.length c)) (ROk (chunk_record 3 [7;7;7])) 2
+  = inr (CNet (GDoesNotMatch (chunk_record 3 [7;7;7]))).
 Proof. vm_compute. reflexivity. Qed.
 
 (* a chunk_get that compares the recomputed address with the key carried by the returned record
@@ -474,7 +487,7 @@ Definition chunk_get_vs_record_key (H : bytes -> N) (rp : reply) (addr : N) : by
           if k =? KIND_CHUNK then
             match parse_chunk r with
             | None => inr CDeser
-            | Some c => if H c =? r_key r then inl c else inr (CNet GDoesNotMatch)
+            | Some c => if H c =? r_key r then inl c else inr (CNet (GDoesNotMatch r))
             end
           else inr CKind
       end
